@@ -159,7 +159,14 @@ pub enum Deviation {
     AuthorityNoKeyUsage { pos: Pos },
     /// RCAC path length 0 although an ICAC follows
     PathLenZeroWithIca,
-    CriticalUnknownExt { pos: Pos, explicit_false_first: bool },
+    CriticalUnknownExt {
+        pos: Pos,
+        explicit_false_first: bool,
+        /// the critical extension sits in a `future-extensions` element of its own, AFTER an
+        /// element holding a harmless non-critical one (a certificate may carry several)
+        #[serde(default)]
+        separate_element: bool,
+    },
     AkidMismatch { pos: Pos },
     AkidAbsent { pos: Pos },
     SkidAbsent { pos: Pos },
@@ -880,7 +887,7 @@ pub fn forge<C: Crypto>(
                 }
                 Truth::all("path-length", Expect::Reject)
             }
-            CriticalUnknownExt { pos, explicit_false_first } => {
+            CriticalUnknownExt { pos, explicit_false_first, separate_element } => {
                 let s = match resolve(pos, with_icac) {
                     Pos::Leaf => &mut leaf.spec,
                     Pos::Ica => &mut ica.spec,
@@ -899,15 +906,27 @@ pub fn forge<C: Crypto>(
                         value: vec![],
                     });
                 }
-                list.push(crit);
-                if let Some(Ext::Future(l)) = s.ext_mut(is_future) {
-                    if explicit_false_first {
-                        // size budget: the non-critical neighbour is already in `list`
-                        l.clear();
+                if separate_element {
+                    if s.ext_mut(is_future).is_none() {
+                        s.exts.push(Ext::Future(vec![FutureExt {
+                            oid_arc: unknown_arc(0x25),
+                            critical: None,
+                            value: vec![],
+                        }]));
                     }
-                    l.extend(list);
-                } else {
+                    list.push(crit);
                     s.exts.push(Ext::Future(list));
+                } else {
+                    list.push(crit);
+                    if let Some(Ext::Future(l)) = s.ext_mut(is_future) {
+                        if explicit_false_first {
+                            // size budget: the non-critical neighbour is already in `list`
+                            l.clear();
+                        }
+                        l.extend(list);
+                    } else {
+                        s.exts.push(Ext::Future(list));
+                    }
                 }
                 Truth::all("critical-extension", Expect::Reject)
             }
